@@ -7,11 +7,12 @@
      services/tftp.go  the map operations of Handle under interleaving
      services/vnc/rfb.go  handshake, command loop, pushFramesLoop/pushImage/pushGenericLocked
      services/counterstrike.go, services/adb.go  slicing/indexing of the first packet(s)
-     services/snmp/snmp.go + Logicalis/asn1 decodeLength / go-asn1-ber readLength:
-        the length-driven allocation of the first TLV
+     services/snmp/snmp.go tlvLengthsFit, services/ldap/conn.go readPacket + tlvLengthsFit,
+        and the allocations the two ASN.1 libraries perform on a checked buffer
      services/echo.go, ntp.go, dns.go behind server.TimeoutConn (the type tests fail)
    The model follows the code after the fix: commits 1603afd (ssh loop stops on a decoder
-   error), 4aa01bd (vnc pusher recovers), 9cc3ebb (tftp mutex), 4b4eb8c (dns decodes).
+   error), 4aa01bd (vnc pusher recovers), 9cc3ebb (tftp mutex), 4b4eb8c (dns decodes),
+   cb1bd7f (snmp length pre-check), 59015c2 (ldap bounded envelope reader).
    Everything else (net/http, x/crypto/ssh, encoding/xml/json, miekg/dns, the rest of
    the two asn1 libraries, the Go runtime) is not modelled: see props/C01.json. *)
 From HT Require Import Common.Bytes C17.Model.
@@ -376,157 +377,151 @@ Definition reads_of (segs : list bytes) : list bytes :=
   flat_map (fun s => chunk (length s) 4096 s) segs.
 
 (* ------------------------------------------------------------------ *)
-(* 6. length-driven allocation of the first TLV (snmp: Logicalis/asn1, ldap: asn1-ber) *)
+(* 6. snmp and ldap: the structural check before the ASN.1 libraries (cb1bd7f, 59015c2) *)
 
-Inductive tlv_len :=
-| LShort (n : Z)
-| LLong (n : Z) (octets : Z)   (* value and the number of length octets *)
-| LIndef
-| LBad                          (* 0xff, or too many octets *)
-| LEof.
-
-(* identifier octet; the high-tag-number form (low five bits all set) is left to the
-   libraries: [None] *)
-Definition skip_ident (l : bytes) : option (N * bytes) :=
-  match l with
-  | [] => None
-  | b :: r => if (N.land b 31 =? 31)%N then None else Some (b, r)
-  end.
-
-Definition read_len (max_octets : Z) (l : bytes) : tlv_len :=
-  match l with
-  | [] => LEof
-  | b :: r =>
-      if (b <? 128)%N then LShort (Z.of_N b)
-      else if (b =? 128)%N then LIndef
-      else if (b =? 255)%N then LBad
-      else let k := Z.of_N b - 128 in
-           if max_octets <? k then LBad
-           else if zlen r <? k then LEof
-           else LLong (be_val (firstn (Z.to_nat k) r)) k
-  end.
-
+(* the runtime's verdict on make([]byte, L): 0 fine, 1 recoverable panic, 2 out of
+   memory (fatal), 3 depends on the machine *)
 Definition MAXALLOC : Z := 2 ^ 48.       (* runtime maxAlloc on amd64: beyond it makeslice panics *)
 Definition MEM_SURE : Z := 2 ^ 36.       (* no lab machine satisfies one allocation above this *)
 Definition MEM_SAFE : Z := 2 ^ 26.       (* ... and every one satisfies one below this *)
 
-(* verdict of make([]byte, L): 0 fine, 1 recoverable panic, 2 out of memory, 3 depends on the machine *)
 Definition alloc_verdict (L : Z) : N :=
   if L <? 0 then 1%N else if MAXALLOC <? L then 1%N
   else if MEM_SURE <? L then 2%N else if MEM_SAFE <? L then 3%N else 0%N.
 
-(* snmp: buf = make(2+hdr[1]) filled from the datagram (zero padded); the library reads the
-   first TLV: identifier, length (uint, any number of octets up to 126, overflow checked),
-   then make([]byte, length) *)
+Definition F_STACK := 7%N.            (* goroutine stack limit exceeded (former ldap nesting defect) *)
+
+(* number of leading bytes with the top bit set *)
+Fixpoint cont_run (l : bytes) : Z :=
+  match l with
+  | b :: r => if (128 <=? b)%N then 1 + cont_run r else 0
+  | [] => 0
+  end.
+
+(* one BER header at the start of b, read with at most [maxoct] length octets:
+   (constructed, offset of the content, declared length).  No check that the content is
+   there.  None: header incomplete, indefinite form, or too many length octets. *)
+Definition gen_hdr (maxoct : Z) (b : bytes) : option (bool * Z * Z) :=
+  match b with
+  | [] => None
+  | b0 :: r =>
+      let i := if (N.land b0 31 =? 31)%N then 1 + cont_run r + 1 else 1 in   (* high tag number form *)
+      if zlen b <=? i then None
+      else
+        let lb := Z.of_N (nth (Z.to_nat i) b 0%N) in
+        let i1 := i + 1 in
+        let c := (N.land b0 32 =? 32)%N in
+        if lb =? 128 then None
+        else if 128 <? lb then
+          let n := lb - 128 in
+          if (maxoct <? n) || (zlen b <? i1 + n) then None
+          else Some (c, i1 + n, be_val (slice b i1 (i1 + n)))
+        else Some (c, i1, lb)
+  end.
+
+(* tlvLengthsFit's view of a header: at most 4 length octets and the content must be there *)
+Definition tlv_hdr (b : bytes) : option (bool * Z * Z) :=
+  match gen_hdr 4 b with
+  | Some (c, i, l) => if zlen b - i <? l then None else Some (c, i, l)
+  | None => None
+  end.
+
+(* the for loop of tlvLengthsFit over the values of one container; [inner] checks the
+   content of a constructed value one level down.  Every iteration consumes >= 2 bytes:
+   fuel = len b. *)
+Fixpoint tlv_loop (inner : bytes -> bool) (fuel : nat) (b : bytes) : bool :=
+  match b with
+  | [] => true
+  | _ :: _ =>
+      match fuel with
+      | O => false
+      | S f =>
+          match tlv_hdr b with
+          | None => false
+          | Some (c, i, l) =>
+              (if c then inner (slice b i (i + l)) else true) &&
+              tlv_loop inner f (skipn (Z.to_nat (i + l)) b)
+          end
+      end
+  end.
+
+(* tlvLengthsFit(b, depth) with levels = 33 - depth: "if depth > 32 { return false }" *)
+Fixpoint tlv_fit (levels : nat) (b : bytes) : bool :=
+  match levels with
+  | O => false
+  | S d => tlv_loop (tlv_fit d) (length b) b
+  end.
+
+Definition tlv_lengths_fit (b : bytes) : bool := tlv_fit 33 b.
+
+(* what the libraries do with a buffer: they read a header (up to 8 length octets), allocate
+   the declared length, and only then find out whether the content is there; constructed
+   content and the following values are walked the same way.  The list of all lengths
+   they allocate (any fuel = any depth/extent of the walk). *)
+Fixpoint lib_allocs (fuel : nat) (b : bytes) : list Z :=
+  match fuel with
+  | O => []
+  | S f =>
+      match b with
+      | [] => []
+      | _ :: _ =>
+          match gen_hdr 8 b with
+          | None => []
+          | Some (c, i, l) =>
+              l :: (if zlen b - i <? l then []
+                    else (if c then lib_allocs f (slice b i (i + l)) else []) ++
+                         lib_allocs f (skipn (Z.to_nat (i + l)) b))
+          end
+      end
+  end.
+
+(* snmp: buf = make(2+hdr[1]) filled from the datagram (zero padded) *)
 Definition snmp_buf (dg : bytes) : bytes :=
   let n := (2 + N.to_nat (nth 1 dg 0%N))%nat in
   firstn n (dg ++ repeat 0%N n).
 
-(* Logicalis decodeLength: accumulates while the top byte of the accumulator is clear *)
-Fixpoint acc_len (acc : Z) (l : bytes) : option Z :=
-  match l with
-  | [] => Some acc
-  | b :: r => if 2 ^ 56 <=? acc then None else acc_len (acc * 256 + Z.of_N b) r
+(* Some = decided before the library sees anything; None = the library decodes buf *)
+Definition snmp_first (dg : bytes) : option res :=
+  if (length dg <? 2)%nat then Some RErr                    (* Peek(2) fails *)
+  else if tlv_lengths_fit (snmp_buf dg) then None
+  else Some ROk.                                            (* "Invalid ASN.1": return nil *)
+
+(* ldap readPacket: the envelope *)
+Definition MAX_MSG : Z := 2 ^ 20.
+
+Inductive envelope :=
+| ERefused          (* by what the header says *)
+| EShort            (* the stream ends first (Peek / ReadFull error) *)
+| EMalformed        (* tlvLengthsFit says no *)
+| EOk (buf : bytes).
+
+Definition ldap_env_body (stream : bytes) (n l : Z) : envelope :=
+  if MAX_MSG <? l then ERefused
+  else if zlen stream <? n + l then EShort
+  else let buf := firstn (Z.to_nat (n + l)) stream in
+       if tlv_lengths_fit buf then EOk buf else EMalformed.
+
+Definition ldap_envelope (stream : bytes) : envelope :=
+  match stream with
+  | b0 :: b1 :: r =>
+      if (N.land b0 31 =? 31)%N then ERefused
+      else let l := Z.of_N b1 in
+           if l =? 128 then ERefused
+           else if 128 <? l then
+             let k := l - 128 in
+             if 4 <? k then ERefused
+             else if zlen r <? k then EShort
+             else ldap_env_body stream (2 + k) (be_val (firstn (Z.to_nat k) r))
+           else ldap_env_body stream 2 l
+  | _ => EShort
   end.
 
-(* what the first TLV header leads to *)
-Inductive first_tlv :=
-| TErr              (* rejected / short read before anything is allocated by a declared length *)
-| TLib              (* the declared content is there: the library goes on (not modelled) *)
-| TOver (L : Z).    (* declared length L (as Go int; negative = wrapped) exceeds what follows:
-                       make([]byte, L) runs before any of it is read *)
-
-Definition res_of_tlv (site : N) (t : first_tlv) : option res :=
-  match t with
-  | TErr => Some RErr
-  | TLib => None
-  | TOver L => let v := alloc_verdict L in
-               if (v =? 1)%N then Some (RPanic site)
-               else if (v =? 2)%N then Some (RFatal F_ALLOC)
-               else if (v =? 3)%N then None
-               else Some RErr
+(* the first message of a connection: refused => Handle returns the error *)
+Definition ldap_first (stream : bytes) : option res :=
+  match ldap_envelope stream with
+  | EOk _ => None
+  | _ => Some RErr
   end.
-
-(* the recorded finding class: a declared length that no machine can satisfy *)
-Definition in_oom_class (t : first_tlv) : bool :=
-  match t with TOver L => (MEM_SURE <? L) && (L <=? MAXALLOC) | _ => false end.
-
-Definition snmp_tlv (dg : bytes) : first_tlv :=
-  if (length dg <? 2)%nat then TErr
-  else
-    match skip_ident (snmp_buf dg) with
-    | None => TLib
-    | Some (_, r) =>
-        match r with
-        | [] => TErr
-        | b :: r' =>
-            if (b <? 128)%N then (if Z.of_N b <=? zlen r' then TLib else TErr)
-            else if (b =? 128)%N then TLib
-            else if (b =? 255)%N then TErr
-            else let k := Z.to_nat (Z.of_N b - 128) in
-                 if (length r' <? k)%nat then TErr
-                 else match acc_len 0 (firstn k r') with
-                      | None => TErr
-                      | Some L =>
-                          if L <=? zlen (skipn k r') then TLib
-                          else TOver (if 2 ^ 63 <=? L then -1 else L)
-                      end
-        end
-    end.
-
-Definition snmp_first (dg : bytes) : option res := res_of_tlv 3 (snmp_tlv dg).
-
-(* ldap: ber.ReadPacket; a primitive first packet allocates its declared length before
-   reading; length octets <= 8, value as int64 *)
-Definition ldap_tlv (stream : bytes) : first_tlv :=
-  match skip_ident stream with
-  | None => match stream with [] => TErr | _ => TLib end
-  | Some (id, r) =>
-      if (N.land id 32 =? 32)%N then TLib             (* constructed: children follow (library) *)
-      else match read_len 8 r with
-           | LLong L k =>
-               let L' := if 2 ^ 63 <=? L then L - 2 ^ 64 else L in
-               if (0 <=? L') && (L' <=? zlen r - 1 - k) then TLib
-               else if L' =? -1 then TErr        (* reads as LengthIndefinite: rejected for a primitive *)
-               else TOver L'
-           | LShort n => if n <=? zlen r - 1 then TLib else TErr
-           | LIndef | LBad | LEof => TErr
-           end
-  end.
-
-Definition ldap_first (stream : bytes) : option res := res_of_tlv 4 (ldap_tlv stream).
-
-(* ldap: ber.ReadPacket calls itself once per constructed header; an indefinite-length
-   header (id, 0x80) opens a level that only an end-of-contents marker closes.  The depth
-   reached is at least the length of the leading run of such headers. *)
-Fixpoint ber_open_run (fuel : nat) (l : bytes) : Z * bytes :=
-  match fuel with
-  | O => (0, l)
-  | S f =>
-      match l with
-      | id :: 128%N :: r =>
-          if ((N.land id 32 =? 32) && negb (N.land id 31 =? 31))%N
-          then let '(n, r') := ber_open_run f r in (n + 1, r') else (0, l)
-      | _ => (0, l)
-      end
-  end.
-
-(* a stream that repeats one segment rep+1 times: the run goes on across repetitions only
-   when the segment is used up by it *)
-Definition ldap_depth (seg : bytes) (rep : Z) : Z :=
-  let '(n, rest) := ber_open_run (length seg) seg in
-  match rest with [] => n * (rep + 1) | _ => n end.
-
-Definition F_STACK := 7%N.            (* goroutine stack limit (1 GB) exceeded *)
-Definition STACK_SURE : Z := 10000000. (* this many readPacket frames cannot fit 1 GB *)
-Definition STACK_SAFE : Z := 10000.    (* ... and this many always do *)
-
-(* Some = decided by the nesting alone; None = machine/frame-size dependent *)
-Definition ldap_nest (seg : bytes) (rep : Z) : option res :=
-  let d := ldap_depth seg rep in
-  if STACK_SURE <=? d then Some (RFatal F_STACK)
-  else if d <=? STACK_SAFE then Some ROk
-  else None.
 
 (* ------------------------------------------------------------------ *)
 (* 7. echo / ntp / dns behind server.TimeoutConn                        *)
